@@ -84,14 +84,17 @@ def renderOptErr : Option Err → String
 def runCollect (c : Case) : String :=
   let sub := parseCtx (c.getD "sub" "-")
   let mode := if c.getD "mode" "sync" == "sync" then SrcMode.sync else SrcMode.hot
+  -- `mode=wait`: Subscription.Wait asked directly (same gathering observer, slow terminal callback):
+  -- it returns exactly when Collect would, and never while the terminal callback is in progress
+  let early := if c.getD "mode" "sync" == "wait" then " early=0" else ""
   match parseScript sub (c.getD "src" "-"), machineOf c with
   | some raw, some a =>
     let _ : Render a.β := a.inst
     match collect (runOp a.m mode sub raw) with
-    | none => s!"res {c.id} ret=0 vals=- err=- lctx=-"
+    | none => s!"res {c.id} ret=0 vals=- err=- lctx=-{early}"
     | some r =>
-      let lctx := match r.lastCtx with | some x => renderCtx x | none => "unset"
-      s!"res {c.id} ret=1 vals={render r.values} err={renderOptErr r.err} lctx={lctx}"
+      let lctx := match r.lastCtx with | some x => renderCtx x | none => "nil"
+      s!"res {c.id} ret=1 vals={render r.values} err={renderOptErr r.err} lctx={lctx}{early}"
   | none, _ => s!"res {c.id} bad-script"
   | _, none => s!"res {c.id} unsupported"
 
